@@ -21,6 +21,7 @@ R2.18 the cycle tracker's exit removes the schema from the stack and completes i
 R2.19 a reference wrapped in `allOf` with annotations only is resolved like the bare reference (property positions)
 R2.20 the type inferred for a node with `allOf` follows its members (an allOf over an enum / array is not an object)                    [finding]
 R2.21 the made-up name of an inline property schema is tied to its document node (name -> node record on the context, identity compared)
+R2.22 an allOf merge that met a base schema still on the parsing stack (a field-less placeholder) is completed once all schemas are parsed   [= R19.13]
 R2.15 writer / reader agreement on registry keys: the key a raw name is registered under is recorded, and $ref resolution / build_schemas
       find a schema through that index (no second parse of a schema whose sanitised name differs from its declared name)
 R2.14 the sanitised key a schema is registered under is tested against the declared names (it never shadows another declared schema)
@@ -128,6 +129,7 @@ def run(repo: Repo, rep: Report, tier: str) -> None:
 
     rule_sibling_names_are_distinct(repo, rep, "R2.16")
     rule_invented_names_avoid_declared(repo, rep, "R2.17")
+    rule_all_of_merge_is_completed(repo, rep, "R2.22")
     rule_annotated_reference(repo, rep, "R2.19")
     rule_invented_names_are_per_node(repo, rep, "R2.21")
     rule_allof_type_follows_members(repo, rep, "R2.20")
@@ -1060,3 +1062,48 @@ def rule_invented_names_are_per_node(repo: Repo, rep, rule: str = "R2.21") -> No
                           "the made-up name is only tested against the declared names: two different inline schemas that read the same (`Order.item_status` / `OrderItem.status`; "
                           "`details` in two allOf members) are one registry entry - the second property is typed with the first one's model and its own values cannot be decoded",
                           pp.loc(c))
+
+
+# ------------------------------------------------------------------------------------------------ R2.22 an allOf merge that met a placeholder is completed
+def rule_all_of_merge_is_completed(repo: Repo, rep, rule: str = "R2.22") -> None:
+    """`_process_all_of` copies `properties` and `required` of every allOf member the moment the member has been parsed.  A member that is a
+    `$ref` to a schema still on the parsing stack (Resource.createdBy -> User, User: allOf [Resource]) comes back as the cycle placeholder -
+    an object without fields - so nothing is inherited; whether the base is finished or in progress at that moment is decided by the order of
+    components.schemas.  Decided: either the merge itself recognises the placeholder (`_is_circular_ref`) and defers, or build_schemas calls,
+    after its loop over the declared schemas, a completion pass that looks at the `all_of` members, recognises placeholders and fills in
+    `properties` / `required` of the inheriting schema."""
+    ap = repo.func("core.parsing.keywords.all_of_parser:_process_all_of")
+    merges = [x for x in ast.walk(ap.node) if isinstance(x, ast.Attribute) and x.attr in ("properties", "required") and isinstance(x.value, ast.Name)]
+    if not merges:
+        raise AnalysisError(f"{rule}: _process_all_of no longer reads properties / required of the parsed members (anchor)")
+    sub = f"{ap.module.relpath}:_process_all_of inheritance from a base that is still being parsed"
+    if any(isinstance(x, ast.Attribute) and x.attr == "_is_circular_ref" for x in ast.walk(ap.node)):
+        rep.ok(rule, sub, "the merge recognises a cycle placeholder itself", ap.loc())
+        return
+    bs = repo.func("core.loader.schemas.extractor:build_schemas")
+    loops = [st for st in own_nodes(bs.node) if isinstance(st, ast.For) and any((dotted(c.func) or "").endswith("_parse_schema") for c in calls_in(st))]
+    if not loops:
+        raise AnalysisError(f"{rule}: the loop of build_schemas over the declared schemas was not found (anchor)")
+    after = [c for st in bs.node.body if getattr(st, "lineno", 0) > loops[0].end_lineno for c in calls_in(st)]
+    passes = []
+    for c in after:
+        d = dotted(c.func) or ""
+        f = bs.module.functions.get(d)
+        if f is None:
+            continue
+        txt_attrs = {x.attr for x in ast.walk(f.node) if isinstance(x, ast.Attribute)}
+        fills = any(isinstance(st, (ast.Assign, ast.AugAssign)) and any(isinstance(t, ast.Attribute) and t.attr == "properties" for t in (st.targets if isinstance(st, ast.Assign) else [st.target]))
+                    for st in ast.walk(f.node)) or any(isinstance(c2.func, ast.Attribute) and c2.func.attr in ("update", "setdefault") and isinstance(c2.func.value, ast.Attribute)
+                                                       and c2.func.value.attr == "properties" for c2 in calls_in(f.node))
+        req = any(isinstance(st, (ast.Assign, ast.AugAssign)) and any(isinstance(t, ast.Attribute) and t.attr == "required" for t in (st.targets if isinstance(st, ast.Assign) else [st.target]))
+                  for st in ast.walk(f.node)) or any(isinstance(c2.func, ast.Attribute) and c2.func.attr in ("update", "extend", "append", "add") and isinstance(c2.func.value, ast.Attribute)
+                                                     and c2.func.value.attr == "required" for c2 in calls_in(f.node))
+        if {"all_of", "_is_circular_ref"} <= txt_attrs and fills and req:
+            passes.append((f, c))
+    if passes:
+        rep.ok(rule, sub, f"build_schemas runs `{passes[0][0].qualname}` after every declared schema is complete: placeholders among the allOf members are resolved and their "
+               "properties / required names merged", bs.loc(passes[0][1]))
+    else:
+        rep.violation(rule, sub, f"{ap.fq}|merge-from-placeholder-never-completed",
+                      "the members' properties / required are copied when the member is parsed; a base that is still on the parsing stack is a field-less placeholder at that moment and "
+                      "nothing completes the merge later: the derived model loses every inherited field, depending on the order of components.schemas", ap.loc(merges[0]))
